@@ -1,21 +1,30 @@
 """Python-`ast` -> Lean translation of the pure core of `src/metador_core/util/diff.py` (C18).
 
-`gen_diff()` parses the file of `envshim.REPO` (honours `METADOR_REPO`) and returns the text of
-`lean/MetadorModel/Gen/Diff.lean`; `harness/props/c18.py::translate` writes it on every
-`./check C18` run. `lean/MetadorModel/Bridge/Diff.lean` (hand-written, re-checked by `lake build`
-on every run) proves that every generated function equals the hand-written model function of
-`Model/Diff.lean` the C18 theorems are about.
+`gen_diff_checked()` parses the file of `envshim.REPO` (honours `METADOR_REPO`) and returns the text
+of `lean/MetadorModel/Gen/Diff.lean` (+ the list of translation errors); `harness/props/c18.py::
+translate` writes it on every `./check C18` run. The hand-written modules `lean/MetadorModel/Bridge/
+Diff*.lean` (re-checked by `lake build` on every run, one module per function so that a changed
+function breaks its own obligation) prove that every generated function equals the hand-written
+model function of `Model/Diff.lean` the C18 theorems are about.
 
-Translated (pinned source lines of /repo)
------------------------------------------
-    DiffNode._type        l. 54-62     Gen.Diff._type       = Diff.objType            (gen_type)
-    DiffNode.prev_type    l. 64-66     Gen.Diff.prev_type   = objType of .prev        (gen_prev_curr_type)
-    DiffNode.curr_type    l. 68-70     Gen.Diff.curr_type   = objType of .curr        (gen_prev_curr_type)
-    DiffNode.children     l. 72-76     Gen.Diff.children    = Diff.children           (gen_children)
-    DiffNode.nodes        l. 78-93     Gen.Diff.nodes       = Diff.nodes              (gen_nodes, gen_nodes_compare)
-    DiffNode.status       l. 95-105    Gen.Diff.status      = Diff.Rec.status         (gen_status)
-    DiffNode.compare      l. 107-175   Gen.Diff.compare     = Diff.compareAt / compare (gen_compare, gen_compare_top)
-    DirDiff.get           l. 207-223   Gen.Diff.get         = Diff.get                (gen_get)
+Translated (pinned source lines of /repo)          bridge theorem (namespace MetadorModel.Bridge.Diff)
+--------------------------------------------------------------------------------------------------
+    DiffNode._type        l. 54-62     gen_type            Gen._type self e = ok (objType e)
+    DiffNode.prev_type    l. 64-66     gen_prev_curr_type  = ok (objType d.prev)
+    DiffNode.curr_type    l. 68-70     gen_prev_curr_type  = ok (objType d.curr)
+    DiffNode.children     l. 72-76     gen_children        = ok (children d)
+    DiffNode.nodes        l. 78-93     gen_nodes           for a node with its three dicts in ANY insertion
+                                                           order: the records listed = nodes (canon d)
+    DiffNode.status       l. 95-105    gen_status          = ok (Rec.status d.rec')
+    DiffNode.compare      l. 107-175   gen_compare(_top)   for EVERY iteration order of sets / input dicts:
+                                                           canon (result) = compareAt path prev curr
+    DirDiff.get           l. 207-223   gen_get             = ok (get root p)   (any root)
+    compositions                       gen_nodes_compare   compare(..).nodes()  lists nodesO (compareAt ..)
+                                       gen_get_compare     canon (compare(..).get(p)) = get (compare a b) p
+  `canon d` = d with every bucket, recursively, in ascending order of the paths (the model's nodes are
+  of that form: `canon_sorted`). Hypotheses of the theorems: the two entries are well-formed (`wf`: the
+  directories are key-sorted association lists = Python dicts) and the recursion limit (`fuel`)
+  exceeds the nesting depth; `ord` returns a permutation of its argument (`PermOrd`).
 
 How: *structurally*, statement by statement. Every function becomes a Lean `do` block in the
 monad `Except PyErr`; a Python exception is `throw`, so nothing is idealised away:
@@ -29,9 +38,13 @@ monad `Except PyErr`; a Python exception is `throw`, so nothing is idealised awa
     x.attr[k] = v             let py_x <- py_x.setAttr k v   (in-place update of the object = rebinding)
     xs.append(v), xs += ys    let py_xs := py_xs ++ [v] / py_xs ++ ys
     for x in e: body          List.foldlM over the loop state (= variables assigned in the body that
-                              exist before the loop); with a `return` in the body: `forRet`
+                              exist before the loop); with a `return` in the body: `forRet`.
+                              If `e` is a set, or the items()/keys() of one of the two snapshots, the loop
+                              runs over `ord _ e`: Python leaves that order open, so `ord : IterOrd` is a
+                              parameter of the function and the bridge theorems hold for every permutation
     while xs: x = xs.pop(); body   (xs not otherwise used in body)  = for x in reversed(xs): body; xs = []
-    a and b, a or b, not a    && || ! on `bool(..)` of the operands (see truthiness below)
+    a and b, a or b, not a    && || ! on `bool(..)` of the operands (see truthiness below); as values
+                              `a or b` = if bool(a) then a else b
     a if c else b             if c then a else b
     return e                  pure e      (falling off the end = pure none)
     recursive call            extra leading argument `fuel : Nat` = the interpreter's remaining
@@ -54,9 +67,7 @@ Value dictionary (fixed; the Lean side is `lean/MetadorModel/Py/DiffPy.lean`)
     x.items(), x.keys(), x[k]                      items x, keys x (AttributeError on non-dict),
                                                    getItem x k (KeyError / TypeError)
     set(xs), a - b, a | b                          pySet xs (drop repeats), setDiff, setUnion on duplicate-free
-                                                   lists; `for k in s` walks the list. Python's set order is
-                                                   unspecified: the bridge shows the listing does not depend
-                                                   on it (`sortedByPath_perm`: `nodes()` sorts every bucket)
+                                                   lists (membership semantics; iteration see `for` above)
     pathlib.Path (relative)                        Diff.Path = list of components; Path("") = []
     p / k                                          pathJoin p k = p ++ [k]  (k a single file name)
     p == q, sort key x.path                        pathEq, pathLt (lexicographic, components by code point)
@@ -64,8 +75,9 @@ Value dictionary (fixed; the Lean side is `lean/MetadorModel/Py/DiffPy.lean`)
     DiffNode(path=, prev=, curr=)                  mkNode (empty removed/modified/added)
     n.path n.prev n.curr n.removed n.modified n.added   the fields of DNode
     Dict[Path, DiffNode] (the three buckets)       List DNode in insertion order; the key of an entry is the
-                                                   path of the node stored under it. `d[key] = x` with
-                                                   `x.path != key` leaves the dictionary: PyErr.unrepresentable
+                                                   path of the node stored under it. `d[key] = x` replaces the
+                                                   value of an existing key in place, else appends; with
+                                                   `x.path != key` it leaves the dictionary: PyErr.unrepresentable
     d.values(), d.get(k)                           values d, bucketGet d k
     sorted(xs, key=lambda x: x.path)               sortedByPath xs (stable insertion sort)
     itertools.chain(*xss), next((x for x in xs if c), None)   chain, nextOrNone
@@ -73,6 +85,7 @@ Value dictionary (fixed; the Lean side is `lean/MetadorModel/Py/DiffPy.lean`)
     xs.pop()                                       listPop xs (IndexError on [])
     DiffNode.Status.X, DiffNode.ObjType.X          Diff.Status.X, Diff.ObjType.X
     DirDiff (self of `get`)                        its `_diff_root : Option DNode`
+  Parameter and result types are fixed per function by position (`SIGS`); parameter names are free.
 
 NOT translated (tied to the model by the correspondence run of `harness/props/c18.py` only)
 -------------------------------------------------------------------------------------------
@@ -81,15 +94,25 @@ NOT translated (tied to the model by the correspondence run of `harness/props/c1
     * pydantic's validation in `DiffNode(...)` (taken as the identity on None/str/dict/Path);
     * that `pathlib` orders sibling paths by the code points of the last component and that
       Lean's `String` order is that order (ASCII names in the generators);
-    * `assert` statements are taken to be active (no `python -O`).
+    * `assert` statements are taken to be active (no `python -O`);
+    * anything outside the table: `TranslateError` -> the function becomes a stub raising
+      `PyErr.untranslated`, `translate:C18` and the function's bridge theorem are reported as
+      undischarged obligations (never a crash).
 
-Robustness. The generated text depends on the syntax tree only, so comments, docstrings,
-formatting, type annotations and renamed locals or parameters give alpha-equivalent Lean and
-the bridge stays green; so do reordered independent assignments/loops and `x if c else y`
-versus an if-statement (checked, see the report of the builder). Rewrites that the bridge
-proofs do NOT survive although harmless: anything that changes the *shape* of a loop (e.g. one
-loop over `prev_keys | curr_keys` with a three-way `if` instead of three loops) or that uses a
-construct outside the table above (-> `TranslateError`, reported as an undischarged obligation).
+Model deviations found by the bridge and repaired in `Model/Diff.lean`: `Rec.status` of a node with
+`prev = curr = None` was `.invalid`; the source tests `prev is None` first and answers `added`
+(unreachable from `compare`, the C18 theorems were unaffected). `objType` (the model of `_type`) did
+not exist and was added.
+
+Robustness (tried on a scratch copy, see the builder's report). The generated text depends on the
+syntax tree only, so comments, docstrings, formatting, type annotations and renamed locals or
+parameters give alpha-equivalent Lean and the bridge stays green; so do reordered independent
+assignments, the three key loops of `compare` in any order, `x if c else y` versus an if-statement,
+`elif/else` versus a chain of `if .. return`, inlining `same_dir`. Rewrites the bridge does NOT
+survive although harmless: anything that changes the *shape* of a loop (e.g. one loop over
+`prev_keys | curr_keys` with a three-way `if` instead of three loops, a comprehension instead of a
+loop), reordering the `isinstance` case distinction of `compare`, or a construct outside the table
+above (`TranslateError`).
 """
 import ast
 
@@ -110,7 +133,7 @@ def lean_ty(t):
     if isinstance(t, tuple):
         if t[0] == "opt":
             return "Option %s" % lean_ty_atom(t[1])
-        if t[0] == "list":
+        if t[0] in ("list", "unord"):
             return "List %s" % lean_ty_atom(t[1])
         if t[0] == "prod":
             return "%s × %s" % (lean_ty_atom(t[1]), lean_ty_atom(t[2]))
@@ -219,6 +242,11 @@ ENUMS = {"Status": ("status", ["removed", "modified", "added", "unchanged"]),
          "ObjType": ("objtype", ["directory", "file", "symlink"])}
 
 
+class NeedsOrd(Exception):
+    """the function iterates over a set / an input dict (or calls one that does): translate it again
+    with the iteration order as a parameter"""
+
+
 class Env:
     def __init__(self, vars=None, narrowed=None):
         self.vars = dict(vars or {})  # python name -> type
@@ -235,7 +263,9 @@ def mangle(name):
 class Fn:
     """Translator of one function body."""
 
-    def __init__(self, name, fn, props, recursive):
+    def __init__(self, name, fn, props, recursive, with_ord=()):
+        self.with_ord = set(with_ord)  # names of functions that take the iteration order `ord`
+        self.uses_ord = False
         self.name = name
         self.fn = fn
         self.props = props  # names of @property methods of the class
@@ -329,13 +359,13 @@ class Fn:
             lt, rt = norm(lt), norm(rt)
             if isinstance(e.op, ast.Div) and lt == "path" and rt == "str":
                 return "(pathJoin %s %s)" % (l, r), "path"
-            if isinstance(e.op, ast.Sub) and lt == rt == ("list", "str"):
+            if isinstance(e.op, ast.Sub) and lt == rt == ("unord", "str"):
                 return "(setDiff %s %s)" % (l, r), lt
-            if isinstance(e.op, ast.BitOr) and lt == rt == ("list", "str"):
+            if isinstance(e.op, ast.BitOr) and lt == rt == ("unord", "str"):
                 return "(setUnion %s %s)" % (l, r), lt
             if isinstance(e.op, ast.Add) and isinstance(lt, tuple) and lt[0] == "list" and isinstance(rt, tuple) and rt[0] == "list":
                 ty = unify(lt, rt)
-                if ty is not None and ty != ("list", "str"):
+                if ty is not None:
                     return "(%s ++ %s)" % (l, r), ty
             raise TranslateError("%s: unsupported operator in %s (%s, %s)" % (self.name, ast.unparse(e), lt, rt))
         if isinstance(e, ast.List):
@@ -368,7 +398,9 @@ class Fn:
             return "%s.%s" % (base, e.attr), NODE_FIELDS[e.attr]
         if bt == "node" and e.attr in self.props:
             t = self.fresh()
-            binds.append("let %s ← %s %s" % (t, e.attr, base))
+            if e.attr in self.with_ord:
+                self.uses_ord = True
+            binds.append("let %s ← %s %s%s" % (t, e.attr, "ord " if e.attr in self.with_ord else "", base))
             return t, SIGS[e.attr][2]
         if bt == "dirdiff" and e.attr == "_diff_root":
             return base, ONODE
@@ -402,8 +434,8 @@ class Fn:
                 return "(mkNode %s)" % " ".join(parts), "node"
             if f.id == "set" and len(e.args) == 1:
                 x, t = self.ex(e.args[0], env, binds)
-                if norm(t) == ("list", "str"):
-                    return "(pySet %s)" % x, t
+                if norm(t) in (("list", "str"), ("unord", "str")):
+                    return "(pySet %s)" % x, ("unord", "str")
             if f.id == "list" and len(e.args) == 1:
                 x, t = self.ex(e.args[0], env, binds)
                 if isinstance(norm(t), tuple) and norm(t)[0] == "list":
@@ -469,11 +501,11 @@ class Fn:
                 if f.attr == "items" and not e.args:
                     t = self.fresh()
                     binds.append("let %s ← items %s" % (t, r))
-                    return t, ("list", ("prod", "str", "tree"))
+                    return t, ("unord", ("prod", "str", "tree"))
                 if f.attr == "keys" and not e.args:
                     t = self.fresh()
                     binds.append("let %s ← keys %s" % (t, r))
-                    return t, ("list", "str")
+                    return t, ("unord", "str")
             if rt == ("list", "node"):
                 if f.attr == "values" and not e.args:
                     return "(values %s)" % recv, rt
@@ -509,6 +541,9 @@ class Fn:
         if len(args) != len(ptys):
             raise TranslateError("%s: call of %s with %d arguments" % (self.name, name, len(args)))
         parts = []
+        if name in self.with_ord:
+            parts.append("ord")
+            self.uses_ord = True
         if name in self.recursive:
             if self.name != name:
                 raise TranslateError("%s: call of the recursive function %s from another function" % (self.name, name))
@@ -530,7 +565,7 @@ class Fn:
             return "(truthy %s)" % coerce(lean, ty, OTREE)
         if ty == NONE:
             return "false"
-        if isinstance(ty, tuple) and ty[0] == "list":
+        if isinstance(ty, tuple) and ty[0] in ("list", "unord"):
             return "(!(%s).isEmpty)" % lean
         if isinstance(ty, tuple) and ty[0] == "opt" and ty[1] in ("node", "objtype"):
             return "(%s).isSome" % lean
@@ -675,7 +710,7 @@ class Fn:
             x, xt = self.ex(s.target, env, binds)
             v, vt = self.ex(s.value, env, binds)
             ty = unify(xt, vt)
-            if ty is not None and isinstance(norm(ty), tuple) and norm(ty)[0] == "list" and norm(ty) != ("list", "str"):
+            if ty is not None and isinstance(norm(ty), tuple) and norm(ty)[0] == "list":
                 self.bind(env, s.target.id, ty)
                 out = "let %s := %s ++ %s" % (mangle(s.target.id), x, v)
         elif isinstance(s, ast.Expr) and isinstance(s.value, ast.Call) and isinstance(s.value.func, ast.Attribute) and isinstance(s.value.func.value, ast.Name) and not s.value.keywords:
@@ -852,8 +887,12 @@ class Fn:
         binds = []
         xs, xt = self.ex(s.iter, env, binds)
         xt = norm(xt)
-        if not (isinstance(xt, tuple) and xt[0] == "list"):
+        if not (isinstance(xt, tuple) and xt[0] in ("list", "unord")):
             raise TranslateError("%s: loop over %s" % (self.name, xt))
+        if xt[0] == "unord":
+            # a set / the items or keys of an input dict: the iteration order is a parameter
+            xs = "(ord _ %s)" % xs
+            self.uses_ord = True
         if getattr(s, "_reversed", False):
             xs = "(%s).reverse" % xs
         ety = xt[1]
@@ -950,12 +989,15 @@ class Fn:
         for ph, h in self.patches:
             text = text.replace(ph, lean_ty_atom(h.resolved()))
         rty = "M %s" % lean_ty_atom(self.rty)
+        ordp = "(ord : IterOrd) " if self.name in self.with_ord else ""
+        if self.uses_ord and not ordp:
+            raise NeedsOrd(self.name)
         if rec:
-            head = "def %s : Nat → %s → %s\n" % (self.name, " → ".join(lean_ty_atom_s(t) for _, t in params), rty)
+            head = "def %s %s: Nat → %s → %s\n" % (self.name, ordp, " → ".join(lean_ty_atom_s(t) for _, t in params), rty)
             head += "  | 0, %s => throw PyErr.recursionError\n" % ", ".join("_" for _ in params)
             head += "  | fuel + 1, %s => do\n" % ", ".join(p for p, _ in params)
         else:
-            head = "def %s %s : %s := do\n" % (self.name, " ".join("(%s : %s)" % p for p in params), rty)
+            head = "def %s %s%s : %s := do\n" % (self.name, ordp, " ".join("(%s : %s)" % p for p in params), rty)
         return head + text + "\n"
 
 
@@ -967,13 +1009,29 @@ ORDER = ["_type", "prev_type", "curr_type", "children", "nodes", "status", "comp
 
 
 def is_recursive(name, fn):
+    """does the function call itself (`x.name(...)`; for the methods of DirDiff only `self.name(...)`,
+    dicts have a `get` too)"""
+    selfname = fn.args.args[0].arg if fn.args.args else None
     for n in ast.walk(fn):
         if isinstance(n, ast.Call) and isinstance(n.func, ast.Attribute) and n.func.attr == name:
-            return True
+            if SIGS[name][0] != "dirdiff" or (isinstance(n.func.value, ast.Name) and n.func.value.id == selfname):
+                return True
     return False
 
 
-def gen_diff():
+def stub(name, recursive, why, with_ord=("compare",)):
+    """a definition of the right type for a function that could not be translated: the functions
+    calling it still compile, its own bridge theorem cannot be proved"""
+    kind, ptys, rty = SIGS[name]
+    tys = (["IterOrd"] if name in with_ord else []) + (["Nat"] if name in recursive else []) + \
+        ({"node": ["DNode"], "dirdiff": ["Option DNode"], "cls": []}[kind]) + [lean_ty_atom(t) for t in ptys]
+    return "/- NOT TRANSLATED: %s -/\ndef %s : %s → M %s :=\n  %sthrow PyErr.untranslated\n" % (
+        why.replace("-/", "- /"), name, " → ".join(tys), lean_ty_atom(rty), "fun %s => " % " ".join("_" for _ in tys))
+
+
+def gen_diff_checked():
+    """-> (text of Gen/Diff.lean, list of translation errors). A function that cannot be translated
+    becomes a stub raising `PyErr.untranslated`, so that only its own bridge obligation breaks."""
     tree = parse_source(SRC)
     node = find_class(tree, "DiffNode")
     dirdiff = find_class(tree, "DirDiff")
@@ -987,11 +1045,16 @@ def gen_diff():
         found = [t.id for n in c.body if isinstance(n, ast.Assign) for t in n.targets if isinstance(t, ast.Name)]
         if sorted(found) != sorted(members):
             raise TranslateError("members of DiffNode.%s are %s" % (en, found))
+    errors = []
     fns = {}
     for name in ORDER:
-        fns[name] = find_func(dirdiff if SIGS[name][0] == "dirdiff" else node, name)
+        try:
+            fns[name] = find_func(dirdiff if SIGS[name][0] == "dirdiff" else node, name)
+        except TranslateError as e:
+            fns[name] = None
+            errors.append(str(e))
     props = {n.name for n in node.body if isinstance(n, ast.FunctionDef) and any(isinstance(d, ast.Name) and d.id == "property" for d in n.decorator_list)}
-    recursive = {n for n in ORDER if is_recursive(n, fns[n])}
+    recursive = {n for n in ORDER if (fns[n] is not None and is_recursive(n, fns[n])) or (fns[n] is None and n in ("nodes", "compare"))}
     out = [
         "import MetadorModel.Py.DiffPy",
         "/-! GENERATED on every run by harness/translate_c18.py from",
@@ -1002,13 +1065,39 @@ def gen_diff():
         "open MetadorModel.Diff MetadorModel.DiffPy",
         "",
     ]
+    with_ord = set()
     for name in ORDER:
-        out.append(Fn(name, fns[name], props, recursive).translate())
+        if fns[name] is None:
+            out.append(stub(name, recursive, "function not found"))
+            continue
+        try:
+            try:
+                out.append(Fn(name, fns[name], props, recursive, with_ord).translate())
+            except NeedsOrd:
+                with_ord.add(name)
+                out.append(Fn(name, fns[name], props, recursive, with_ord).translate())
+        except TranslateError as e:
+            errors.append(str(e))
+            if name == "compare":
+                with_ord.add(name)
+            out.append(stub(name, recursive, str(e), with_ord))
     out.append("/-- functions with a recursion-depth argument -/")
-    out.append("def recursiveFunctions : List String := [%s]\n" % ", ".join('"%s"' % n for n in ORDER if n in recursive))
+    out.append("def recursiveFunctions : List String := [%s]" % ", ".join('"%s"' % n for n in ORDER if n in recursive))
+    out.append("/-- functions that iterate over a set or an input dict: the iteration order is their first argument -/")
+    out.append("def orderParametricFunctions : List String := [%s]\n" % ", ".join('"%s"' % n for n in ORDER if n in with_ord))
     out.append("end MetadorModel.Gen.Diff\n")
-    return "\n".join(out)
+    return "\n".join(out), errors
+
+
+def gen_diff():
+    text, errors = gen_diff_checked()
+    if errors:
+        raise TranslateError("; ".join(errors))
+    return text
 
 
 if __name__ == "__main__":
-    print(gen_diff())
+    t, errs = gen_diff_checked()
+    print(t)
+    for e in errs:
+        print("-- TranslateError:", e)
